@@ -8,6 +8,7 @@
 From Coq Require Import QArith ZArith List Bool Arith Lia.
 Import ListNotations.
 Require Import Plinio.Model.Masks Plinio.Model.Conv Plinio.Model.PitNet Plinio.Proofs.Conv Plinio.Proofs.PitNet.
+Require Import Plinio.Base.Tensor Plinio.Gen.MasksGen Plinio.Gen.ExportGen Plinio.Proofs.ExportGen.      (* second tie, by translation: C01_generated_* below *)
 Local Open Scope nat_scope.
 
 (* the masked tap sum is the sum over the kept taps *)
@@ -265,6 +266,196 @@ Example C01_example :
   = run_exp_conv1d false w (Some [1;2;3]%Z) (Some ([2;1;-1], [0;1;5])%Z) 2 6 1 mout min (time_mask true 6 beta gamma) x.
 Proof. vm_compute. repeat split. Qed.
 
+(* ================================================================ second tie, by translation (DESIGN.md §13.T).
+   Gen/ExportGen.v is GENERATED (translator/export2coq.py, rewritten on every run of the check) from the SOURCE of
+   PITConv1d / PITConv2d / PITLinear .forward, .export, .in_features_opt and PITBatchNorm1d / 2d .export of the tree under test;
+   the mask quantities those methods read are the functions of Gen/MasksGen.v (translator/masks2coq.py, C08).  Proofs/ExportGen.v.
+   masks1 / masks2 / masks0 ms mout .. = "the generated mask functions of the layer object ms give the binarized feature mask
+   mout (time mask tm, k' kept taps, dilation d')"; C01_generated_masks_* establish them for the layers graph.py builds. *)
+
+(* ---- the generated forwards are the eval-mode forwards of the model (repaired fold_bn: bias masked) *)
+Theorem C01_generated_conv1d_forward_is_model : forall R r0 r1 radd rmul, @laws R r0 r1 radd rmul ->
+  forall (s : conv1d_self R) mout tm k' d', masks1 (c1s_masks s) mout tm k' d' -> forall x co t,
+  c1_forward_gen R r0 r1 radd rmul s x co t =
+  pit_conv1d_at r0 r1 radd rmul true (c1s_fold_bn s) (c1_is_dw s) (c1s_weight s) (c1s_bias s) (option_map fb_coef (c1s_bn s))
+    (c1s_in_channels s) (c1s_kernel_size s) (Z.of_nat (c1s_dilation s)) (Z.of_nat (c1s_stride s)) mout tm x co t.
+Proof. exact c1_forward_gen_eq. Qed.
+Theorem C01_generated_conv2d_forward_is_model : forall R r0 r1 radd rmul, @laws R r0 r1 radd rmul ->
+  forall (s : conv2d_self R) mout, masks2 (c2s_masks s) mout -> forall x co h v,
+  c2_forward_gen R r0 r1 radd rmul s x co h v =
+  pit_conv2d_at r0 r1 radd rmul true (c2s_fold_bn s) (c2_is_dw s) (c2s_weight s) (c2s_bias s) (option_map fb_coef (c2s_bn s))
+    (c2s_in_channels s) (fst (c2s_kernel_size s)) (snd (c2s_kernel_size s)) (Z.of_nat (fst (c2s_dilation s))) (Z.of_nat (fst (c2s_stride s)))
+    (Z.of_nat (fst (pad2_of (c2s_padding s) (fst (c2s_kernel_size s)) (snd (c2s_kernel_size s)) (fst (c2s_dilation s)))))
+    (Z.of_nat (snd (pad2_of (c2s_padding s) (fst (c2s_kernel_size s)) (snd (c2s_kernel_size s)) (fst (c2s_dilation s))))) mout x co h v.
+Proof. exact c2_forward_gen_eq. Qed.
+Theorem C01_generated_linear_forward_is_model : forall R r0 r1 radd rmul, @laws R r0 r1 radd rmul ->
+  forall (s : linear_self R) mout, masks0 (ls_masks s) mout -> forall x co,
+  lin_forward_gen R r0 r1 radd rmul s x co =
+  pit_linear_at r0 r1 radd rmul true (ls_fold_bn s) (ls_weight s) (ls_bias s) (option_map fb_coef (ls_bn s)) (ls_in_features s) mout x co.
+Proof. exact lin_forward_gen_eq. Qed.
+
+(* ---- the generated exports write what the model says, whatever the initial parameters of the new modules:
+   weight = export_w3 / w4 / w2 (output mask, producer-derived input mask unless depthwise, time mask), bias = export_bias,
+   constructor arguments of the new layer, the new ConstantPad1d amount (k'-1)*d' (layers without implicit padding), the
+   BatchNorm of the sliced width with the constructor arguments of the fused one iff there is one and it is not folded *)
+Theorem C01_generated_conv1d_export_is_model : forall R (s : conv1d_self R) mout min tm k' d' iw ib,
+  masks1 (c1s_masks s) mout tm k' d' -> c1s_in_mask s = bfloat min -> 1 <= k' ->
+  let e := c1_export_gen R s iw ib in
+  x1_weight e = export_w3 (c1_is_dw s) mout min tm (c1s_weight s) /\
+  x1_bias e = export_bias mout (c1s_bias s) /\
+  x1_layer e = {| nc_in := Z.of_nat (count_true min); nc_out := Z.of_nat (count_true mout); nc_kernel := Z.of_nat k'; nc_stride := c1s_stride s; nc_padding := c1s_padding s;
+                  nc_dilation := Z.of_nat d'; nc_groups := if c1_is_dw s then Z.of_nat (count_true min) else Z.of_nat (c1s_groups s);
+                  nc_has_bias := negb (is_none (c1s_bias s)); nc_padding_mode := c1s_padding_mode s |} /\
+  x1_pad e = (if pad_zero (c1s_padding s) then Some (Z.of_nat ((k' - 1) * d')) else None) /\
+  x1_bn e = new_bn_of (c1s_bn s) (c1s_fold_bn s) (count_true mout).
+Proof. exact c1_export_gen_eq. Qed.
+Theorem C01_generated_conv2d_export_is_model : forall R (s : conv2d_self R) mout min iw ib,
+  masks2 (c2s_masks s) mout -> c2s_in_mask s = bfloat min ->
+  let e := c2_export_gen R s iw ib in
+  x2_weight e = export_w4 (c2_is_dw s) mout min (c2s_weight s) /\
+  x2_bias e = export_bias mout (c2s_bias s) /\
+  x2_layer e = {| n2_in := Z.of_nat (count_true min); n2_out := Z.of_nat (count_true mout); n2_kernel := c2s_kernel_size s; n2_stride := c2s_stride s; n2_padding := c2s_padding s;
+                  n2_dilation := c2s_dilation s; n2_groups := if c2_is_dw s then Z.of_nat (count_true min) else Z.of_nat (c2s_groups s);
+                  n2_has_bias := negb (is_none (c2s_bias s)); n2_padding_mode := c2s_padding_mode s |} /\
+  x2_bn e = new_bn_of (c2s_bn s) (c2s_fold_bn s) (count_true mout).
+Proof. exact c2_export_gen_eq. Qed.
+Theorem C01_generated_linear_export_is_model : forall R (s : linear_self R) mout min iw ib,
+  masks0 (ls_masks s) mout -> ls_in_mask s = bfloat min ->
+  let e := lin_export_gen R s iw ib in
+  xl_weight e = export_w2 mout min (ls_weight s) /\
+  xl_bias e = export_bias mout (ls_bias s) /\
+  xl_layer e = {| nl_in := Z.of_nat (count_true min); nl_out := Z.of_nat (count_true mout); nl_has_bias := negb (is_none (ls_bias s)) |} /\
+  xl_bn e = new_bn_of (ls_bn s) (ls_fold_bn s) (count_true mout).
+Proof. exact lin_export_gen_eq. Qed.
+(* PITBatchNorm1d / 2d: width = number of alive input features, eps / momentum / affine / track_running_stats copied,
+   weight, bias (iff affine), running_mean, running_var (iff present) sliced by the mask of the features that reach the layer *)
+Theorem C01_generated_batchnorm_export_is_model : forall R (s : bn_self R) min iw ib im iv, bs_in_mask s = bfloat min ->
+  bn1_export_gen R s iw ib im iv = bn_export_model R s min iw ib /\ bn2_export_gen R s iw ib im iv = bn_export_model R s min iw ib.
+Proof. intros. split; [apply bn1_export_gen_eq|apply bn2_export_gen_eq]; assumption. Qed.
+
+(* ---- the mask premises hold for the layers as graph.py / autoimport build them: features masker with theta th that binarizes to
+   mout (trainable on any alpha of the right length, frozen, or an observed 0/1 vector), time-axis maskers on K taps trainable on
+   EVERY real beta / gamma, or frozen (strided layers: all taps kept, kernel and dilation unchanged) *)
+Theorem C01_generated_masks_conv1d : forall K d0 th mout beta gamma, 1 <= K -> length beta = K -> length gamma = gamma_len K -> theta_is th mout ->
+  masks1 (masks_obj false K d0 th beta gamma) mout (time_mask true K beta gamma) (kernel_size_opt true K beta gamma) (dilation_opt true K d0 gamma) /\
+  masks1 (masks_obj true K d0 th beta gamma) mout (all_true K) K d0.
+Proof. intros. split; [apply masks1_trainable|apply masks1_frozen]; assumption. Qed.
+Theorem C01_generated_masks_features : forall th mout, theta_is th mout ->
+  masks2 (feat_masks c2_default_binarization_threshold th) mout /\ masks0 (feat_masks lin_default_binarization_threshold th) mout.
+Proof. intros. split; [apply masks2_of|apply masks0_of]; assumption. Qed.
+Theorem C01_generated_theta : (forall C alpha, 1 <= C -> length alpha = C -> theta_is (fm_theta_gen C fm_default_keep_alive_channels alpha) (features_mask alpha)) /\
+  (forall C, theta_is (ffm_theta_gen C fm_default_keep_alive_channels) (all_true C)) /\ (forall mout, theta_is (bfloat mout) mout).
+Proof. split; [exact theta_is_alpha|split; [exact theta_is_frozen|exact theta_is_observed]]. Qed.
+
+(* ---- every operation the generated functions perform is defined on well-shaped layers: masks as long as the axes they index /
+   multiply and 0/1-valued where they multiply a tensor, sliced parameters of the shape the new module's constructor gives its
+   parameters (copy_), groups dividing the channel counts, geometry within what conv1d_at / conv2d_at model *)
+Theorem C01_generated_export_defined : forall R,
+  (forall (s : conv1d_self R) mout min tm k' d' iw ib, masks1 (c1s_masks s) mout tm k' d' -> c1s_in_mask s = bfloat min ->
+     all3 (c1s_weight s) (length mout) (if c1_is_dw s then 1 else length min) (length tm) -> (forall bl, c1s_bias s = Some bl -> length bl = length mout) ->
+     (c1_is_dw s = true -> count_true min = count_true mout /\ 1 <= count_true mout) -> (c1_is_dw s = false -> c1s_groups s = 1) ->
+     c1_export_ok R s iw ib = true) /\
+  (forall (s : conv2d_self R) mout min iw ib, masks2 (c2s_masks s) mout -> c2s_in_mask s = bfloat min ->
+     all4 (c2s_weight s) (length mout) (if c2_is_dw s then 1 else length min) (fst (c2s_kernel_size s)) (snd (c2s_kernel_size s)) ->
+     (forall bl, c2s_bias s = Some bl -> length bl = length mout) ->
+     (c2_is_dw s = true -> count_true min = count_true mout /\ 1 <= count_true mout) -> (c2_is_dw s = false -> c2s_groups s = 1) ->
+     c2_export_ok R s iw ib = true) /\
+  (forall (s : linear_self R) mout min iw ib, masks0 (ls_masks s) mout -> ls_in_mask s = bfloat min ->
+     all2 (ls_weight s) (length mout) (length min) -> (forall bl, ls_bias s = Some bl -> length bl = length mout) -> lin_export_ok R s iw ib = true) /\
+  (forall (s : bn_self R) min iw ib im iv, bs_in_mask s = bfloat min ->
+     (bs_affine s = true -> length (bs_weight s) = length min /\ length (bs_bias s) = length min) ->
+     (forall l, bs_mean s = Some l -> length l = length min /\ bs_track s = true) -> (forall l, bs_var s = Some l -> length l = length min /\ bs_track s = true) ->
+     bn1_export_ok R s iw ib im iv = true /\ bn2_export_ok R s iw ib im iv = true).
+Proof. intro R. split; [exact (c1_export_ok_true R)|split; [exact (c2_export_ok_true R)|split; [exact (lin_export_ok_true R)|exact (bn_export_ok_true R)]]]. Qed.
+Theorem C01_generated_forward_defined : forall R (r0 r1 : R) radd rmul,
+  (forall (s : conv1d_self R) mout tm k' d' x, masks1 (c1s_masks s) mout tm k' d' -> c1_geom_ok s = true ->
+     (exists wcin, all3 (c1s_weight s) (length mout) wcin (length tm)) -> (forall bl, c1s_bias s = Some bl -> length bl = length mout) ->
+     c1_forward_ok R r0 r1 radd rmul s x = true) /\
+  (forall (s : conv2d_self R) mout x, masks2 (c2s_masks s) mout -> c2_geom_ok s = true -> length (c2s_weight s) = length mout ->
+     (forall bl, c2s_bias s = Some bl -> length bl = length mout) -> c2_forward_ok R r0 r1 radd rmul s x = true) /\
+  (forall (s : linear_self R) mout x, masks0 (ls_masks s) mout -> length (ls_weight s) = length mout ->
+     (forall bl, ls_bias s = Some bl -> length bl = length mout) -> lin_forward_ok R r0 r1 radd rmul s x = true).
+Proof. intros. split; [exact (c1_forward_ok_true R r0 r1 radd rmul)|split; [exact (c2_forward_ok_true R r0 r1 radd rmul)|exact (lin_forward_ok_true R r0 r1 radd rmul)]]. Qed.
+
+(* ---- the layer-level sentence of C01 about the code as it is now.  PITConv1d built on K >= 1 taps with initial dilation d0, any
+   stride, full or depthwise, fold_bn off or on, time-axis maskers trainable (every real beta / gamma) or frozen: on every alive
+   output channel, at every time step, the GENERATED forward on the input behind its causal pad (K-1)*d0 equals exp1_at = the plain
+   Conv1d that the GENERATED export describes (its sliced weight and bias, in/out channels, kernel size, dilation, stride, behind the
+   ConstantPad1d of the amount export installs, followed by the BatchNorm export re-creates, given the sliced statistics) on the
+   alive input channels, provided the input vanishes on dead input channels. *)
+Theorem C01_generated_conv1d_export_eq : forall R r0 r1 radd rmul, @laws R r0 r1 radd rmul ->
+  forall (frozen_t fold dw : bool) (w : w3 R) b (bn : option (fbn R)) (cin cout K d0 st : nat) th beta gamma (min mout : list bool) (x : nat -> Z -> R) co' t iw ib,
+  1 <= K -> length beta = K -> length gamma = gamma_len K -> theta_is th mout ->
+  shape3 R w cout (if dw then 1 else cin) K -> bias_ok R b cout -> bn_ok R (option_map fb_coef bn) cout -> length mout = cout -> length min = cin ->
+  (dw = true -> cin = cout) -> (dw = false -> ~ (cin = 1 /\ cout = 1)) ->
+  (forall ci, ci < cin -> nth ci min false = false -> forall u, x ci u = r0) -> co' < count_true mout ->
+  let s := conv1d_layer dw fold w b bn cin cout K d0 st (masks_obj frozen_t K d0 th beta gamma) (bfloat min) in
+  c1_forward_gen R r0 r1 radd rmul s (fun ci => padl ((K - 1) * d0) (x ci)) (nth co' (kept mout) 0) t
+  = exp1_at R r0 radd rmul dw (c1_export_gen R s iw ib) (option_map fb_coef bn) mout (fun i => x (nth i (kept (if dw then mout else min)) 0)) co' t.
+Proof. exact gen_conv1d_export_eq. Qed.
+Theorem C01_generated_conv2d_export_eq : forall R r0 r1 radd rmul, @laws R r0 r1 radd rmul ->
+  forall (fold dw : bool) (w : w4 R) b (bn : option (fbn R)) (cin cout : nat) ks st dil pad th (min mout : list bool) (x : nat -> Z -> Z -> R) co' h v iw ib,
+  theta_is th mout -> shape4 R w cout (if dw then 1 else cin) -> bias_ok R b cout -> bn_ok R (option_map fb_coef bn) cout -> length mout = cout -> length min = cin ->
+  (dw = true -> cin = cout) -> (dw = false -> ~ (cin = 1 /\ cout = 1)) ->
+  (forall ci, ci < cin -> nth ci min false = false -> forall a c, x ci a c = r0) -> co' < count_true mout ->
+  let s := conv2d_layer dw fold w b bn cin cout ks st dil pad (feat_masks c2_default_binarization_threshold th) (bfloat min) in
+  c2_forward_gen R r0 r1 radd rmul s x (nth co' (kept mout) 0) h v
+  = exp2_at R r0 radd rmul dw (c2_export_gen R s iw ib) (option_map fb_coef bn) mout (fun i => x (nth i (kept (if dw then mout else min)) 0)) co' h v.
+Proof. exact gen_conv2d_export_eq. Qed.
+Theorem C01_generated_linear_export_eq : forall R r0 r1 radd rmul, @laws R r0 r1 radd rmul ->
+  forall (fold : bool) (w : list (list R)) b (bn : option (fbn R)) (cin cout : nat) th (min mout : list bool) (x : nat -> R) co' iw ib,
+  theta_is th mout -> shape2 R w cout cin -> bias_ok R b cout -> bn_ok R (option_map fb_coef bn) cout -> length mout = cout -> length min = cin ->
+  (forall ci, ci < cin -> nth ci min false = false -> x ci = r0) -> co' < count_true mout ->
+  let s := linear_layer fold w b bn cin cout (feat_masks lin_default_binarization_threshold th) (bfloat min) in
+  lin_forward_gen R r0 r1 radd rmul s x (nth co' (kept mout) 0)
+  = exp0_at R r0 radd rmul (lin_export_gen R s iw ib) (option_map fb_coef bn) mout (fun i => x (nth i (kept min) 0)) co'.
+Proof. exact gen_linear_export_eq. Qed.
+
+(* masked-out channels of the generated forwards are exactly zero (fold_bn off: after the fused BatchNorm; on: bias masked) *)
+Theorem C01_generated_dead_out_zero : forall R r0 r1 radd rmul, @laws R r0 r1 radd rmul ->
+  (forall (s : conv1d_self R) mout tm k' d' x co t, masks1 (c1s_masks s) mout tm k' d' -> length mout = length (c1s_weight s) ->
+     bias_ok R (c1s_bias s) (length mout) -> nth co mout false = false -> c1_forward_gen R r0 r1 radd rmul s x co t = r0) /\
+  (forall (s : conv2d_self R) mout x co h v, masks2 (c2s_masks s) mout -> length mout = length (c2s_weight s) ->
+     bias_ok R (c2s_bias s) (length mout) -> nth co mout false = false -> c2_forward_gen R r0 r1 radd rmul s x co h v = r0) /\
+  (forall (s : linear_self R) mout x co, masks0 (ls_masks s) mout -> length mout = length (ls_weight s) ->
+     bias_ok R (ls_bias s) (length mout) -> nth co mout false = false -> lin_forward_gen R r0 r1 radd rmul s x co = r0).
+Proof.
+  intros R r0 r1 radd rmul L. split; [exact (gen_dead_out_zero1 R r0 r1 radd rmul L)|split; [exact (gen_dead_out_zero2 R r0 r1 radd rmul L)|exact (gen_dead_out_zero0 R r0 r1 radd rmul L)]].
+Qed.
+
+(* ---- the helpers the correspondence run evaluates next to run_export_w3 / run_hp / run_pit_conv1d compute the same values *)
+Theorem C01_generated_run_export_is_model :
+  (forall dw frozen has_bn fold K d0 beta gamma mout min w b, 1 <= K -> length beta = K -> length gamma = gamma_len K ->
+     (dw = true -> length min = length mout) -> (dw = false -> ~ (length min = 1 /\ length mout = 1)) ->
+     run_export1_gen dw frozen has_bn fold K d0 beta gamma mout min w b
+     = (run_export_w3 dw mout min (time_mask_of frozen K beta gamma) w, @export_bias Z mout b, run_hp dw frozen has_bn fold K d0 beta gamma mout min)) /\
+  (forall dw has_bn fold mout min w b, (dw = true -> length min = length mout) -> (dw = false -> ~ (length min = 1 /\ length mout = 1)) ->
+     run_export2_gen dw has_bn fold mout min w b
+     = (run_export_w4 dw mout min w, @export_bias Z mout b,
+        (count_true min, count_true mout, if dw then count_true min else 1, if has_bn && negb fold then Some (count_true mout) else None))) /\
+  (forall has_bn fold mout min w b,
+     run_export0_gen has_bn fold mout min w b
+     = (run_export_w2 mout min w, @export_bias Z mout b, (count_true min, count_true mout, if has_bn && negb fold then Some (count_true mout) else None))).
+Proof. split; [exact run_export1_gen_eq|split; [exact run_export2_gen_eq|exact run_export0_gen_eq]]. Qed.
+Theorem C01_generated_run_forward_is_model : forall fold dw w b bn cin K d st frozen alpha beta gamma x,
+  1 <= K -> length beta = K -> length gamma = gamma_len K -> alpha <> [] -> (dw = true -> cin = length w) -> (dw = false -> ~ (cin = 1 /\ length w = 1)) ->
+  run_pit_conv1d_gen fold dw w b bn cin K d st frozen alpha beta gamma x
+  = run_pit_conv1d true fold dw w b bn cin K d st (features_mask alpha) (time_mask_of frozen K beta gamma) x.
+Proof. exact run_pit_conv1d_gen_eq. Qed.
+
+(* the worked example of C01_example through the generated functions: K = 6, kept taps {3, 5}: k' = 2, dilation 6, pad 6 *)
+Example C01_generated_example :
+  let beta := [0; 0; 0; 3; 0; -1]%Q in let gamma := [0; 1; 0]%Q in
+  let w := [[[1;2;3;4;5;6];[1;1;1;1;1;1]]; [[7;8;9;1;2;3];[2;2;2;2;2;2]]; [[-1;0;2;0;-3;1];[3;3;3;3;3;3]]]%Z in
+  let x := [[0;0;0;0;0;0;0;0]; [1;-2;3;0;2;-1;4;1]]%Z in
+  run_export1_gen false false true false 6 3 beta gamma [false; true; true] [false; true] w (Some [1;2;3]%Z)
+  = ([[[2;2]]; [[3;3]]]%Z, Some [2;3]%Z, (1, 2, 2, (6, 1, 6, Some 2), [false; false; false; true; false; true])) /\
+  run_export1_gen_ok false false true false 6 3 beta gamma [false; true; true] [false; true] w (Some [1;2;3]%Z) = true /\
+  run_pit_conv1d_gen false false w (Some [1;2;3]%Z) (Some ([2;1;-1], [0;1;5])%Z) 2 6 3 1 false [0;1;1]%Q beta gamma x
+  = run_pit_conv1d true false false w (Some [1;2;3]%Z) (Some ([2;1;-1], [0;1;5])%Z) 2 6 3 1 [false; true; true] (time_mask true 6 beta gamma) x.
+Proof. vm_compute. repeat split. Qed.
+
+
 Print Assumptions C01_masked_sum_filter.
 Print Assumptions C01_taps_export_eq.
 Print Assumptions C01_conv1d_export_eq.
@@ -290,3 +481,22 @@ Print Assumptions C01_export_sound_concrete.
 Print Assumptions C01_export_sound_concrete_output.
 Print Assumptions C01_run_net_sound.
 Print Assumptions C01_run_net_sound_partial.
+Print Assumptions C01_generated_conv1d_forward_is_model.
+Print Assumptions C01_generated_conv2d_forward_is_model.
+Print Assumptions C01_generated_linear_forward_is_model.
+Print Assumptions C01_generated_conv1d_export_is_model.
+Print Assumptions C01_generated_conv2d_export_is_model.
+Print Assumptions C01_generated_linear_export_is_model.
+Print Assumptions C01_generated_batchnorm_export_is_model.
+Print Assumptions C01_generated_masks_conv1d.
+Print Assumptions C01_generated_masks_features.
+Print Assumptions C01_generated_theta.
+Print Assumptions C01_generated_export_defined.
+Print Assumptions C01_generated_forward_defined.
+Print Assumptions C01_generated_conv1d_export_eq.
+Print Assumptions C01_generated_conv2d_export_eq.
+Print Assumptions C01_generated_linear_export_eq.
+Print Assumptions C01_generated_dead_out_zero.
+Print Assumptions C01_generated_run_export_is_model.
+Print Assumptions C01_generated_run_forward_is_model.
+Print Assumptions C01_generated_example.
